@@ -601,6 +601,95 @@ class ExampleStep(Ob):
         return None if _norm(result["i_dict"]) == _norm(want) else "features differ with examples_mode: %r vs %r" % (result["i_dict"], want)
 
 
+class ExampleTwoShapes(Ob):
+    """two shapes using the same property in the same direction keep separate examples."""
+    functions = ExampleStep.functions
+
+    def __init__(self, inverse):
+        self.inverse = inverse
+        self.name = "examples_two_shapes/%s" % ("inverse" if inverse else "direct")
+
+    def build(self, ex):
+        s1, s2, o1, o2 = node(ex, "s"), node(ex, "t"), node(ex, "o"), node(ex, "u")
+        ex.add(as_z3(neg(eq(s1, s2))), as_z3(neg(eq(o1, o2))), as_z3(neg(eq(s1, o1))), as_z3(neg(eq(s1, o2))), as_z3(neg(eq(s2, o1))), as_z3(neg(eq(s2, o2))))
+        tail = ({},) if self.inverse else ()
+        i_dict = {s1: (["http://ex.org/C"], {}) + tail, s2: (["http://ex.org/D"], {}) + tail}
+        return dict(i_dict=i_dict, t1=(("iri", s1), P, ("iri", o1)), t2=(("iri", s2), P, ("iri", o2)), o1=o1, o2=o2)
+
+    def call(self, a):
+        i_dict = copy_state(a["i_dict"])
+        prof = make_profiler(i_dict, self.inverse, examples_mode="all")
+        prof._strategy.annotate_triple_features(model_triple(*a["t1"]))
+        prof._strategy.annotate_triple_features(model_triple(*a["t2"]))
+        sf = prof._shape_feature_examples
+        kw = dict(inverse=False) if self.inverse else {}
+        return dict(ex_C=sf.get_constraint_example(shape_id="http://ex.org/C", prop=P, **kw), ex_D=sf.get_constraint_example(shape_id="http://ex.org/D", prop=P, **kw))
+
+    def bad(self, a, result):
+        return neg(_and([eq(result["ex_C"], a["o1"]), eq(result["ex_D"], a["o2"])]))
+
+    def check(self, a, result):
+        return None if (result["ex_C"], result["ex_D"]) == (a["o1"], a["o2"]) else "examples of (C,p)/(D,p) are %r/%r, expected %r/%r" % (result["ex_C"], result["ex_D"], a["o1"], a["o2"])
+
+
+class ShapeMapTrackerStep(Ob):
+    """ShapeMapInstanceTracker._solve_targets_of_an_item from an arbitrary state: every node of the item gains the item's label (once),
+    whether or not an earlier item already selected it; nothing else changes."""
+    functions = ["ShapeMapInstanceTracker._solve_targets_of_an_item/track_instances"]
+
+    def __init__(self, n_nodes, repeat):
+        self.n, self.repeat = n_nodes, repeat
+        self.name = "shape_map_tracker_step/nodes=%d%s" % (n_nodes, "/repeated" if repeat else "")
+
+    def build(self, ex):
+        known = node(ex, "k")
+        nodes = [node(ex, "n%d" % i) for i in range(self.n)]
+        if self.repeat:
+            nodes.append(nodes[0])
+        return dict(pre={known: ["<http://sh.org/L1>"]}, nodes=nodes, label="<http://sh.org/L2>")
+
+    def call(self, a):
+        from shexer.core.instances.mappings.shape_map_instance_tracker import ShapeMapInstanceTracker
+
+        class Sel:
+            def __init__(self, nodes):
+                self.nodes = nodes
+
+            def get_target_nodes(self):
+                return list(self.nodes)
+
+        class Item:
+            def __init__(self, nodes, label):
+                self.node_selector, self.shape_label = Sel(nodes), label
+
+        class SM:
+            def __init__(self, items):
+                self.items = items
+
+            def yield_items(self):
+                return iter(self.items)
+        tr = ShapeMapInstanceTracker(shape_map=SM([Item(a["nodes"], a["label"])]))
+        tr._instances_dict.update(copy_state(a["pre"]))
+        return dict(instances=tr.track_instances())
+
+    @staticmethod
+    def _ref(pre, nodes, label):
+        post = copy_state(pre)
+        for n in nodes:
+            if n not in post:
+                post[n] = []
+            if label not in post[n]:
+                post[n].append(label)
+        return post
+
+    def bad(self, a, result):
+        return neg(states_equal(result["instances"], self._ref(a["pre"], a["nodes"], a["label"])))
+
+    def check(self, a, result):
+        want = self._ref(a["pre"], a["nodes"], a["label"])
+        return None if _norm(result["instances"]) == _norm(want) else "instances after the item: %r, expected %r" % (result["instances"], want)
+
+
 class FilterYielder(Ob):
     """FilterNamespacesTriplesYielder over a stub yielder: passes exactly the triples whose predicate is not a direct child of an ignored
     namespace, in order."""
@@ -667,6 +756,9 @@ def obligations(prop, tier):
                 for pre in ("empty", "some", "full"):
                     out.append(ClassAggregation(direct, inv, inverse, classes, pre))
     if prop == "C10":
+        for n in (1, 2):
+            for rep in (False, True):
+                out.append(ShapeMapTrackerStep(n, rep))
         for mode in ("targets", "all"):   # AllClasses+TargetClasses cannot be configured together (C20); compound = all classes + qualifiers/shape map
             for inst in (RDF_TYPE, "http://ex.org/isa", "http://www.wikidata.org/prop/direct/P31"):
                 for okind in ("iri", "bnode"):
@@ -683,4 +775,5 @@ def obligations(prop, tier):
         for inverse in (False, True):
             for already in (False, True):
                 out.append(ExampleStep(inverse, already))
+            out.append(ExampleTwoShapes(inverse))
     return out
